@@ -33,6 +33,10 @@ theorem bind {G : α → Prop} {H : β → Prop} {x : M α} {f : α → M β} (h
   ⟨fun c hc => QSpec.bind c (hx.out c hc) (fun a c1 h1 => (hf a).out c1 h1)
     (fun a c1 hG hd => (hcalm a hG).out c1 hd) hH⟩
 
+theorem tryCatch_plain {G : α → Prop} {x : M α} {h : Exc → M α} (hx : M.Rel RPlain x)
+    (hh : ∀ ex, QS G (h ex)) : QS G (M.tryCatch x h) :=
+  ⟨fun c hc => QSpec.tryCatch_plain hx (fun ex c1 h1 => (hh ex).out c1 h1) c hc⟩
+
 theorem ite {G : α → Prop} {p : Prop} [Decidable p] {a b : M α} (ha : QS G a) (hb : QS G b) :
     QS G (if p then a else b) := by
   split <;> assumption
@@ -152,7 +156,8 @@ macro_rules
     let binds ← ls.getElems.mapM fun l => `(tactic| refine QS.bind (G := fun _ => True) $l ?_ ?_ ?_)
     let pre := #[← `(tactic| res_tac), ← `(tactic| intro _), ← `(tactic| rfl), ← `(tactic| trivial),
       ← `(tactic| exact QS.pure _), ← `(tactic| exact QS.emit),
-      ← `(tactic| (refine QS.bind_plain ?_ ?_; focus plain_tac))]
+      ← `(tactic| (refine QS.bind_plain ?_ ?_; focus plain_tac)),
+      ← `(tactic| (refine QS.tryCatch_plain ?_ ?_; focus plain_tac))]
     let post := #[← `(tactic| apply QS.ite), ← `(tactic| split), ← `(tactic| calm_tac),
       ← `(tactic| (refine QS.of_plain ?_; focus plain_tac))]
     let all := pre ++ exacts ++ binds ++ post
@@ -166,8 +171,22 @@ theorem processHeartbeat_QS (env : Env) (m : Msg) : QS (fun _ => True) (processH
   unfold processHeartbeat
   qs_tac [disconnect_QS _ _ _]
 
+/-- the acceptor's Logon reply: when it ends in a disconnected state it has raised -/
+theorem logonReply_QS (env : Env) (m : Msg) :
+    QS (fun _ => False) (M.tryCatch (sendMsg env m) fun ex => do
+      disconnect env st_DISCONNECTED_BROKEN_CONN none
+      M.throw ex) := by
+  refine QS.tryCatch_plain (sendMsg_plain env m) ?_
+  intro ex
+  refine QS.bind (G := fun _ => True) (disconnect_QS _ _ _) ?_ ?_ ?_
+  · intro _; exact QS.of_plain (M.Rel.throw ex)
+  · intro _ _; exact ⟨fun c hc => by simp [Calm, hc]⟩
+  · intro _ c1 _ _ b hb; simp at hb
+
 theorem processLogon_QS (env : Env) (m : Msg) : QS (fun _ => True) (processLogon env m) := by
   unfold processLogon
+  qs_tac [disconnect_QS _ _ _]
+  refine QS.bind (G := fun _ => False) (logonReply_QS env _) ?_ (fun _ h => h.elim) (fun _ _ h => h.elim)
   qs_tac [disconnect_QS _ _ _]
 
 theorem processHead_QS (env : Env) (m : Msg) : QS (fun r => r = none) (processHead env m) := by
